@@ -54,7 +54,7 @@ func (b bound) sql() string {
 func runC17(r *core.Run) {
 	r.Assume = []string{
 		"the order inside a partition is the one csvq's ROW_NUMBER() shows for the same window (validated by TLC to be a correct order of exactly that partition); order-sensitive functions are run with a total order (a unique last key), ranking functions with ties",
-		"default frames: running frame for aggregates and NTH_VALUE with ORDER BY, first/last value of the partition for FIRST_VALUE/LAST_VALUE (manual: value in a group); IGNORE NULLS, LISTAGG/JSON_AGG/user aggregates OVER are not generated",
+		"default frames: running frame for aggregates and NTH_VALUE with ORDER BY, first/last value of the partition for FIRST_VALUE/LAST_VALUE (manual: value in a group); IGNORE NULLS with LAG/LEAD only at offset 1; LISTAGG/JSON_AGG/user aggregates OVER are not generated",
 	}
 	mc := r.MustHold(core.TLCOpts{Module: "RelMC", Cfg: "RelMC_analytic.cfg", Workers: 8})
 	r.Coverage["states"] = mc.Distinct
@@ -99,6 +99,7 @@ func runC17(r *core.Run) {
 		lo, hi := bound{K: "ub"}, bound{K: "ub"}
 		call := ""
 		frame := ""
+		ign := false
 		mkFrame := func(def [2]bound) {
 			if rng.Intn(4) == 0 {
 				lo, hi = def[0], def[1]
@@ -133,13 +134,28 @@ func runC17(r *core.Run) {
 		case "lag", "lead":
 			arg = 1 + rng.Intn(3)
 			call = fmt.Sprintf("%s(v, %d)", strings.ToUpper(fn), arg)
+			if rng.Intn(3) == 0 {
+				// IGNORE NULLS: "rows whose value is null are skipped"; generated with offset 1 only, where the
+				// readings of that sentence agree (the nearest non-null value in that direction)
+				ign, arg = true, 1
+				call = fmt.Sprintf("%s(v) IGNORE NULLS", strings.ToUpper(fn))
+			}
 		case "first_value", "last_value":
 			call = strings.ToUpper(fn) + "(v)"
 			mkFrame([2]bound{{K: "ub"}, {K: "ub"}})
+			// IGNORE NULLS only with an explicit frame (the manual does not say which frame applies without one)
+			if frame != "" && rng.Intn(2) == 0 {
+				ign = true
+				call += " IGNORE NULLS"
+			}
 		case "nth_value":
 			arg = 1 + rng.Intn(3)
 			call = fmt.Sprintf("NTH_VALUE(v, %d)", arg)
 			mkFrame([2]bound{{K: "ub"}, {K: "cur"}}) // without a frame clause: the running frame, as for aggregates
+			if frame != "" && rng.Intn(2) == 0 {
+				ign = true
+				call += " IGNORE NULLS"
+			}
 		default:
 			call = strings.ToUpper(fn) + "(v)"
 			mkFrame([2]bound{{K: "ub"}, {K: "cur"}})
@@ -150,6 +166,9 @@ func runC17(r *core.Run) {
 		res, _, e := x.query(sql + ";")
 		x.close()
 		sig := "analytic:" + fn
+		if ign {
+			sig += ":ignore-nulls"
+		}
 		if frame != "" {
 			sig += ":frame"
 		}
@@ -238,7 +257,7 @@ func runC17(r *core.Run) {
 		}
 		rankStrings(t.Rows)
 		evs = append(evs, relEvent{SQL: sql, Sig: sig, CPU: cpu, Ev: map[string]interface{}{"kind": "analytic", "rows": cellsJSON(t.Rows), "pcols": pcols, "keys": keys,
-			"fn": fn, "arg": arg, "col": 4, "lo": lo, "hi": hi, "parts": parts}})
+			"fn": fn, "arg": arg, "col": 4, "lo": lo, "hi": hi, "ign": ign, "parts": parts}})
 		r.Distinct(sql + fmt.Sprint(n))
 		if c < 4 {
 			r.Sample(map[string]interface{}{"sql": sql, "rows": n, "cpu": cpu, "partitions": len(parts)})
